@@ -2,7 +2,7 @@
    Statements only; proofs in Async.v.  [areach l tl s]: s is reachable by ANY interleaving of
    caller operations (dispatch / running / wait / wait_without_tl / world / world_mut / setup,
    in any order) and steps of the background job (one event at a time, then the send). *)
-From Shred Require Import Base Plan PlanLemmas Exec ExecProps Async.
+From Shred Require Import Base Plan PlanLemmas Exec ExecProps Async AsyncAccept.
 
 (* after wait, wait_without_tl, world, world_mut (and setup) return: no job is running, none is
    pending — every system of every earlier dispatch has finished *)
@@ -44,6 +44,32 @@ Theorem C15_thread_locals_only_in_wait :
   a_blocks s' = a_blocks s \/ exists d, a_job s = Some (d, []) /\ a_blocks s' = a_blocks s ++ [d].
 Proof. exact thread_locals_only_in_wait. Qed.
 Print Assumptions C15_thread_locals_only_in_wait.
+
+(* ---- what acceptance of a RECORDED history means (suite S7 runs [acc_run] on every history) ---- *)
+(* a history that the acceptor accepts and that ends with the return of wait / wait_without_tl / world /
+   world_mut / setup / running()=false: the events of ordinary systems recorded before that return are a
+   sequence of COMPLETE dispatches, each a trace of the model — everything has finished, nothing is running *)
+Theorem C15_accepted_accessor_return_means_all_finished :
+  forall l tl ts o a, NoDup (concat (concat l)) -> quiescing o = true ->
+  acc_run l tl acc_init (ts ++ [TEnd o]) 0 = inr a ->
+  exists blocks, evs_of ts = concat blocks /\ Forall (fun b => traces_disp l [] b) blocks /\ c_active a = false.
+Proof. exact accepted_accessor_means_all_finished. Qed.
+Print Assumptions C15_accepted_accessor_return_means_all_finished.
+Theorem C15_accepted_running_true_means_a_job_is_outstanding :
+  forall l tl a, acc_step l tl a (TEnd (ARunning true)) <> None -> c_active a = true.
+Proof. exact accepted_running_true_means_job_outstanding. Qed.
+Print Assumptions C15_accepted_running_true_means_a_job_is_outstanding.
+Theorem C15_accepted_thread_local_event_is_inside_wait_on_the_caller :
+  forall l tl a e oc a', acc_step l tl a (TTl e oc) = Some a' ->
+  c_inwait a = true /\ oc = true /\ (c_active a = false \/ accept_disp l [] (c_prog a) = true).
+Proof. exact accepted_thread_local_event. Qed.
+Print Assumptions C15_accepted_thread_local_event_is_inside_wait_on_the_caller.
+Theorem C15_accepted_pool_event_never_overtakes :
+  forall l tl a e a', acc_step l tl a (TEv e) = Some a' ->
+  (c_active a = true /\ job_complete l a = false) \/
+  (c_want a = true /\ (c_active a = false \/ job_complete l a = true)).
+Proof. exact accepted_pool_event. Qed.
+Print Assumptions C15_accepted_pool_event_never_overtakes.
 
 Example C15_example :
   (* dispatch; one event; running() = true; the rest of the job; send; running() = false *)
